@@ -375,3 +375,115 @@ theorem C10_directed_line_raises (es : List DEdge) (s : Rat) (weighted : Bool) (
   apply foldlM_none_of_mem _ _ (e, f) (mem_allOrdered.2 ⟨he, hf⟩)
   intro g
   simp [dlgVisit, hne, h1, h2, dist?, jaccard?, unionSize]
+
+/-! ## the incident table of the object at hand
+
+`line_graph` reads `h.get_incident_edges(n)`, a second piece of container state next to `get_edges()`.  For an object
+reached through a history (removals, a copy whose original is edited afterwards, ...) the harness sends the table the
+real object returns to the driver, which evaluates `incidentOK` on it and runs `lineGraphFrom` on that very table. -/
+
+/-- `incidentOK` decides exactly the three hypotheses of `C10_line_any_incident_order` -/
+theorem C10_incidentOK_iff (es : List Edge) (adj : List (List Edge)) :
+    incidentOK es adj = true ↔
+      (∀ l ∈ adj, l.Nodup ∧ ∀ e ∈ l, e ∈ es) ∧
+      (∀ l ∈ adj, ∀ a ∈ l, ∀ b ∈ l, ∃ n, n ∈ a ∧ n ∈ b) ∧
+      (∀ a ∈ es, ∀ b ∈ es, (∃ n, n ∈ a ∧ n ∈ b) → ∃ l ∈ adj, a ∈ l ∧ b ∈ l) := by
+  simp only [incidentOK, incListsOK, incSharesOK, incCoversOK, sharesNode, Bool.and_eq_true, Bool.or_eq_true,
+    Bool.not_eq_true', List.all_eq_true, List.any_eq_true, decide_eq_true_eq, List.contains_iff_mem, and_assoc]
+  refine and_congr Iff.rfl (and_congr Iff.rfl ?_)
+  constructor
+  · intro h a ha b hb hsh
+    rcases h a ha b hb with h1 | h1
+    · exfalso
+      obtain ⟨n, hna, hnb⟩ := hsh
+      have : (a.any fun n => b.contains n) = true := List.any_eq_true.2 ⟨n, hna, by simpa using hnb⟩
+      rw [h1] at this; cases this
+    · exact h1
+  · intro h a ha b hb
+    by_cases hsh : (a.any fun n => b.contains n) = true
+    · right
+      obtain ⟨n, hna, hnb⟩ := List.any_eq_true.1 hsh
+      exact h a ha b hb ⟨n, hna, by simpa using hnb⟩
+    · left; simpa using hsh
+
+/-- the line graph computed from a table that passed the check is the right one: vertices `0..m-1`, `i — j` exactly
+when `i ≠ j` and the value of `e_i, e_j` is at least `s`, with the value (or 1) as weight -/
+theorem C10_line_checked_incident_table (es : List Edge) (d : Dist) (s : Rat) (weighted : Bool)
+    (adj : List (List Edge)) (hes : es.Nodup) (hnd : ∀ e ∈ es, e.Nodup) (hs : 0 < s)
+    (hok : incidentOK es adj = true) :
+    ∃ r, lineGraphFrom es d s weighted adj = some r ∧
+      AL.keys r.g.nodes = List.range es.length ∧
+      (∀ i j a, AL.get? r.g.adj (i, j) = some a ↔
+        ∃ (hi : i < es.length) (hj : j < es.length), i ≠ j ∧ s ≤ distV d es[i] es[j] ∧
+          a = some (if weighted then distV d es[i] es[j] else 1)) :=
+  let ⟨hA, hC, hB⟩ := (C10_incidentOK_iff es adj).1 hok
+  C10_line_any_incident_order es d s weighted adj hes hnd hs hA hC hB
+
+/-- the table of a container whose incident lists are what `get_edges()` says (any node order) passes the check -/
+theorem C10_incidentOK_of_listing (nodes : List Nat) (es : List Edge) (hes : es.Nodup)
+    (hmem : ∀ e ∈ es, ∀ n ∈ e, n ∈ nodes) : incidentOK es (nodes.map (incident es)) = true := by
+  rw [C10_incidentOK_iff]
+  refine ⟨?_, ?_, ?_⟩
+  · intro l hl
+    obtain ⟨n, _, rfl⟩ := List.mem_map.1 hl
+    exact ⟨hes.filter _, fun e he => (List.mem_filter.1 he).1⟩
+  · intro l hl a ha b hb
+    obtain ⟨n, _, rfl⟩ := List.mem_map.1 hl
+    exact ⟨n, by simpa using (List.mem_filter.1 ha).2, by simpa using (List.mem_filter.1 hb).2⟩
+  · rintro a ha b hb ⟨n, hna, hnb⟩
+    refine ⟨incident es n, List.mem_map.2 ⟨n, hmem a ha n hna, rfl⟩, ?_, ?_⟩
+    · exact List.mem_filter.2 ⟨ha, by simpa using hna⟩
+    · exact List.mem_filter.2 ⟨hb, by simpa using hnb⟩
+
+/-- what a STALE table does (e.g. the per-node id lists of a copy that shares them with its edited original): if the
+lists are still sound (members are hyperedges of `get_edges()` with a common node) but two hyperedges `e_i`, `e_j` are
+together in no list, then `line_graph` returns a graph without the edge `i — j`, whatever their value and whatever
+the threshold - so the third conjunct of `incidentOK` is necessary for `C10_line_checked_incident_table` -/
+theorem C10_line_stale_incident_table (es : List Edge) (d : Dist) (s : Rat) (weighted : Bool)
+    (adj : List (List Edge)) (hnd : ∀ e ∈ es, e.Nodup)
+    (hA : ∀ l ∈ adj, ∀ e ∈ l, e ∈ es)
+    (hC : ∀ l ∈ adj, ∀ a ∈ l, ∀ b ∈ l, ∃ n, n ∈ a ∧ n ∈ b)
+    (i j : Nat) (hi : i < es.length) (hj : j < es.length)
+    (hmiss : ∀ l ∈ adj, ¬ (es[i] ∈ l ∧ es[j] ∈ l)) :
+    ∃ r, lineGraphFrom es d s weighted adj = some r ∧ AL.get? r.g.adj (i, j) = none := by
+  have hps : ∀ p ∈ adj.flatMap pairsOf, p.1 ∈ es ∧ p.2 ∈ es ∧ ∃ n, n ∈ p.1 ∧ n ∈ p.2 := by
+    intro p hp
+    obtain ⟨l, hl, hpl⟩ := List.mem_flatMap.1 hp
+    have hm := mem_pairsOf_mem (x := p.1) (y := p.2) hpl
+    exact ⟨hA l hl _ hm.1, hA l hl _ hm.2, hC l hl _ hm.1 _ hm.2⟩
+  obtain ⟨r, hr, hI⟩ := lg_fold_inv (d := d) (s := s) (weighted := weighted) hnd _ hps
+  refine ⟨r, hr, ?_⟩
+  cases h : AL.get? r.g.adj (i, j) with
+  | none => rfl
+  | some a =>
+    exfalso
+    obtain ⟨hK, _, _⟩ := (hI.adj i j a).1 h
+    obtain ⟨⟨a', b'⟩, hp, hk⟩ := List.mem_map.1 hK
+    obtain ⟨l, hl, hpl⟩ := List.mem_flatMap.1 hp
+    have hm := mem_pairsOf_mem hpl
+    have ha := hA l hl a' hm.1
+    have hb := hA l hl b' hm.2
+    simp only at hk
+    rcases (pairKey_eq_iff _ _ _ _).1 hk with ⟨h1, h2⟩ | ⟨h1, h2⟩
+    · subst h1 h2
+      exact hmiss l hl ⟨by rw [getElem_idOf ha]; exact hm.1, by rw [getElem_idOf hb]; exact hm.2⟩
+    · subst h1 h2
+      exact hmiss l hl ⟨by rw [getElem_idOf hb]; exact hm.2, by rw [getElem_idOf ha]; exact hm.1⟩
+
+/-- the seeded situation in small: hyperedges `(1,2,3)`, `(2,3,4)`, `(3,4,5)` over the nodes `1..5`; the fresh table
+passes the check; the table in which `(2,3,4)` was dropped from every list (it was removed from the object that
+shares the lists) fails it, and the line graph computed from it has lost both links of that hyperedge -/
+example : incidentOK [[1, 2, 3], [2, 3, 4], [3, 4, 5]] ([1, 2, 3, 4, 5].map (incident [[1, 2, 3], [2, 3, 4], [3, 4, 5]])) = true ∧
+    incidentOK [[1, 2, 3], [2, 3, 4], [3, 4, 5]] [[[1, 2, 3]], [[1, 2, 3]], [[1, 2, 3], [3, 4, 5]], [[3, 4, 5]], [[3, 4, 5]]] = false ∧
+    (∃ r, lineGraphFrom [[1, 2, 3], [2, 3, 4], [3, 4, 5]] .intersection 1 false
+        [[[1, 2, 3]], [[1, 2, 3]], [[1, 2, 3], [3, 4, 5]], [[3, 4, 5]], [[3, 4, 5]]] = some r ∧
+      AL.get? r.g.adj (0, 1) = none ∧ AL.get? r.g.adj (1, 2) = none) := by
+  refine ⟨by decide, by decide, ?_⟩
+  obtain ⟨r, hr, h01⟩ := C10_line_stale_incident_table [[1, 2, 3], [2, 3, 4], [3, 4, 5]] .intersection 1 false
+    [[[1, 2, 3]], [[1, 2, 3]], [[1, 2, 3], [3, 4, 5]], [[3, 4, 5]], [[3, 4, 5]]] (by decide) (by decide) (by decide)
+    0 1 (by decide) (by decide) (by decide)
+  obtain ⟨r', hr', h12⟩ := C10_line_stale_incident_table [[1, 2, 3], [2, 3, 4], [3, 4, 5]] .intersection 1 false
+    [[[1, 2, 3]], [[1, 2, 3]], [[1, 2, 3], [3, 4, 5]], [[3, 4, 5]], [[3, 4, 5]]] (by decide) (by decide) (by decide)
+    1 2 (by decide) (by decide) (by decide)
+  rw [hr] at hr'; cases hr'
+  exact ⟨r, hr, h01, h12⟩
